@@ -92,6 +92,14 @@ class Vocab:
         if self.unit_tags:
             self.flaws.append(("bad-unit", lambda i: self.form(self.unit_tags[i % len(self.unit_tags)], i) + "/3 qqzz",
                                "UNITS_INVALID", False))
+        if self.unit_tags:
+            # a unit that is not of the "prefix" kind written IN FRONT of the number is not a unit
+            def _before(i):
+                t = self.unit_tags[i % len(self.unit_tags)]
+                val = [v for (p_, v, k) in self.value if p_ is t and k == "unit"][0]       # "3 <unit>"
+                num, unit = val.split(" ", 1)
+                return self.form(t, i) + "/" + unit + " " + num
+            self.flaws.append(("unit-before-number", _before, "UNITS_INVALID", False))
         if self.num_tags:
             self.flaws.append(("bad-value", lambda i: self.form(self.num_tags[i % len(self.num_tags)], i) + "/abc",
                                "VALUE_INVALID", False))
